@@ -140,6 +140,7 @@ def _execute_script_helper(statements, options, locals_):
                 include_options = options.copy()
                 include_options['urlFn'] = functools.partial(url_file_relative, url)
                 _execute_script_helper(script['statements'], include_options, None)
+                options['statementCount'] = include_options['statementCount']
 
         # Increment the statement counter
         ix_statement += 1
